@@ -35,8 +35,8 @@ class SelectNode:
         """
         if self.keyword=='int':
             value = IntegerType(self.cast_value(node.value_raw), node.units_raw)
-            if env.envtype == EnvType.DOCS:
-                value.convert(self.units_raw, env)
+            # converted here, where the units defined in the text are known (not later, when the option is compared)
+            value.convert(self.units_raw, env)
         elif self.keyword=='float':
             value = FloatType(self.cast_value(node.value_raw), node.units_raw)
             if not env.envtype == EnvType.DOCS:
